@@ -170,7 +170,9 @@ FEATURES = {
     "attributes": 'va: int = 1\n"""va doc"""\nvb = [1, 2]\nvc: "str"\n__all__ = ["va", "vb"]\n',
     "imports": "import os\nimport os.path as osp\nfrom typing import Any as AnyT, TYPE_CHECKING\nfrom collections import *\nif TYPE_CHECKING:\n    from decimal import Decimal\nfrom typing import (\n    Dict,\n    List as L2,\n)\nimport json, \\\n    re\n",
     "overloads": "from typing import overload\n@overload\ndef ov(a: int) -> int: ...\n@overload\ndef ov(a: str) -> str: ...\ndef ov(a): return a\n",
-    "dataclass": 'import dataclasses\n@dataclasses.dataclass\nclass DC:\n    """DC doc."""\n    x: int\n    y: str = "s"\n    z: list = dataclasses.field(default_factory=list)\n',
+    "dataclass": 'import dataclasses\n@dataclasses.dataclass\nclass DC:\n    """DC doc."""\n    x: int\n    y: str = "s"\n    z: list = dataclasses.field(default_factory=list)\n'
+                 # options unpacked from module-level dictionaries (field(**opts), dataclass(**opts))
+                 '_fopts = {"default": 3, "kw_only": True}\n_dopts = {"frozen": True}\n@dataclasses.dataclass(**_dopts)\nclass DC2:\n    u: int\n    w: int = dataclasses.field(**_fopts)\n    v: float = dataclasses.field(**{"default": 1.5})\n',
     "lambda": "lam = lambda a, /, b=1, *c, d, **e: a\n",
     # a class member spelled like the class's own base / decorator: the header names belong to the enclosing scope
     "shadow": "def deco(c):\n    return c\nclass SBase:\n    x = 1\n@deco\nclass Child(SBase):\n    SBase = None\n    deco = 2\n    def m(self, p: SBase = SBase) -> SBase: ...\n",
